@@ -1,5 +1,5 @@
 (* C03 — A matching round clears every executable pair (and never fails: see the note at the end). *)
-Require Import Pams.Prelude Pams.Match Pams.Market Pams.MatchQ Pams.MarketInv Pams.MarketExec Pams.MarketPost Pams.MarketRound.
+Require Import Pams.Prelude Pams.Match Pams.Market Pams.MatchQ Pams.MarketInv Pams.MarketExec Pams.MarketPost Pams.MarketRound Pams.MarketLife Pams.Sim Pams.SimBooks.
 Open Scope Z_scope.
 
 (* Immediately after a round that returned: if both sides are non-empty and at least one of the two
@@ -61,3 +61,33 @@ Example C03_nonvacuous :
   exists m' logs, execution m = Ok (m', logs) /\ length logs = 2%nat /\
     map (@price Q) (m_buys m') = [Some (99#1)] /\ map (@price Q) (m_sells m') = [Some (101#1)].
 Proof. eexists. eexists. split; [vm_compute; reflexivity|]. vm_compute. repeat split. Qed.
+
+(* ---- whole simulations ---- *)
+(* In EVERY run of the runner + simulator model - every configuration (markets, index markets, sessions, built-in and user events),
+   every tape of runner decisions, every agent behaviour, every fundamental path - as long as the accepted orders have positive
+   volume and time-to-live (Order.__init__ enforces it): the run never ends with an internal assertion of the matching engine
+   (walk assertions, "price undefined", "executable orders remain", negative volume) ... *)
+Theorem C03_no_round_of_any_simulation_fails : forall c tape batches funds,
+  let s := run c tape batches funds in
+  valid_tr s -> forall e, s_err s = Some e -> e <> EAssertWalk /\ e <> EAssertPrice /\ e <> EAssertPost /\ e <> EAssertNegVolume.
+Proof. exact no_round_of_a_run_fails. Qed.
+Print Assumptions C03_no_round_of_any_simulation_fails.
+
+(* ... and every market of the run satisfies the lifetime invariant (sorted books, unique ids, positive volumes, every resting
+   order within its lifetime), so the market-level theorems of C01, C02, C03, C04 and C08 apply to every market of every run *)
+Theorem C03_markets_of_a_simulation_stay_well_formed : forall c tape batches funds,
+  let s := run c tape batches funds in
+  valid_tr s -> forall x, In x (s_markets s) -> life_ok (mk_m x).
+Proof. exact markets_of_a_run_are_well_formed. Qed.
+Print Assumptions C03_markets_of_a_simulation_stay_well_formed.
+
+Example C03_run_nonvacuous :
+  let c := mkCfg [mkMC 0 (1#1) (100#1) None 1] [mkAC 0 false (1000#1) [(0, 10)]; mkAC 1 false (1000#1) [(0, 10)]]
+                 [mkSC 0 2 true true 2 1 (0#1)] [] in
+  let tape := [TPerm [0; 1]; TPerm [0; 1]; TDraw (1#2); TDraw (1#2); TPerm [0; 1]; TPerm [0]; TDraw (1#2)]%nat in
+  let batches := [(0, [RNew 1 0 0 false (Some (100#1)) 5 None]); (1, [RNew 2 1 0 true (Some (100#1)) 2 None]);
+                  (0, [Sim.RCancel 1 0 0]); (1, [])] in
+  let funds := [(0, 0, 100#1); (0, 1, 100#1); (0, 2, 100#1)] in
+  let s := run c tape batches funds in
+  valid_tr s /\ s_err s = None /\ length (SimInv.truths (s_trace s)) = 4%nat.
+Proof. exact books_example. Qed.
